@@ -10,7 +10,7 @@ from __future__ import annotations
 
 import ast
 
-from ..astutil import deref, body_always_raises, calls_in, dotted, enclosing_stmt, is_within, kwarg, src, walk_local
+from ..astutil import ancestors, deref, body_always_raises, calls_in, dotted, enclosing_stmt, is_within, kwarg, src, walk_local
 from ..cfg import cfg_of, deref_at
 from ..loader import AnalysisError
 from ..terms import Evaluator, alts, contains, find, show, strip_sites, walk
@@ -582,6 +582,36 @@ def r5_quantities(ctx):
     ctx.check(ok, 'C15.R5', f'{func_label(fn)}|restore-range-length', loc(fn, fn.node), 'restore: a reference contributes end - start bytes', 'restore: reference length is not end - start')
 
 
+def r2b_every_loaded_snapshot_is_listed(ctx, rule='C15.R2'):
+    """list_snapshots shows every snapshot the loader hands it - also those of other users of the key family, whose details
+    cannot be decrypted (their row shows the name and placeholders).  No path through the body of the loading loop goes
+    on to the next snapshot without having stored a row."""
+    corpus = ctx.corpus
+    f = corpus.func('repository', 'Repository.list_snapshots')
+    ctx.analysed(f)
+    cfg = cfg_of(f.node)
+    loops = [l for l in walk_local(f.node) if isinstance(l, (ast.For, ast.AsyncFor)) and any(isinstance(x, ast.Attribute) and x.attr == '_load_snapshots' for x in ast.walk(deref_at(f.node, l.iter) if isinstance(l.iter, ast.Name) else l.iter))]
+    ctx.floor(rule, 'loop over _load_snapshots in list_snapshots', len(loops))
+    for lp in loops:
+        stores = [enclosing_stmt(c) for c in ast.walk(lp) if isinstance(c, ast.Call) and isinstance(c.func, ast.Attribute) and c.func.attr in ('append', 'add', 'insert', 'setdefault') and isinstance(c.func.value, ast.Name)]
+        stores = [s_ for s_ in stores if getattr(s_, '_parent', None) is lp or not any(isinstance(a, (ast.For, ast.AsyncFor, ast.While)) and a is not lp and is_within(a, lp) for a in ancestors(s_))]
+        stores += [a for a in walk_local(lp) if isinstance(a, ast.Assign) and any(isinstance(t, ast.Subscript) for t in a.targets) and not any(isinstance(x, (ast.For, ast.AsyncFor, ast.While)) and x is not lp and is_within(x, lp) for x in ancestors(a))]
+        snodes = [x for s_ in stores for x in cfg.nodes_of(s_, ('stmt', 'ok'))]
+        heads = cfg.nodes_of(lp, 'loop')
+        skip = None
+        for t in cfg.nodes_of(lp, 'true'):
+            skip = skip or cfg.path(t, heads, avoid=snodes, kinds=('normal',))
+        ctx.check(
+            bool(snodes) and skip is None,
+            rule,
+            f'{func_label(f)}|every-loaded-snapshot-gets-a-row',
+            loc(f, lp),
+            'list_snapshots: every snapshot the loader yields is stored as a row (foreign ones with placeholders)',
+            'list_snapshots: a loaded snapshot can be passed over without a row (e.g. `data is None -> continue`): snapshots made under another key of the family - which the user is entitled to see exist - '
+            'are missing from the listing',
+        )
+
+
 def _fold(e, consts):
     """Constant folding of the integer arithmetic used in unit tables."""
     if isinstance(e, ast.Constant) and isinstance(e.value, (int, float)) and not isinstance(e.value, bool):
@@ -791,6 +821,7 @@ def run(ctx):
     r1_one_name(ctx)
     r1b_header_follows_columns(ctx)
     r2_order(ctx)
+    r2b_every_loaded_snapshot_is_listed(ctx)
     r3_regex(ctx)
     r4_refusal(ctx)
     r5_quantities(ctx)
